@@ -108,6 +108,7 @@ const (
 	vpWaitFlushBeforeBlock
 	vpOnHupBeforeCloseLock
 	vpSetOnRequestEnter
+	vpAcceptAfterRecheck
 	vpCount
 )
 
@@ -213,6 +214,7 @@ var verifPointNames = [...]string{
 	vpWaitFlushBeforeBlock:    "WaitFlushBeforeBlock",
 	vpOnHupBeforeCloseLock:    "OnHupBeforeCloseLock",
 	vpSetOnRequestEnter:       "SetOnRequestEnter",
+	vpAcceptAfterRecheck:      "AcceptAfterRecheck",
 }
 
 func verifB2I(b bool) int {
